@@ -291,7 +291,10 @@ class TheoryOracle(walkers.DagWalker):
         return theory_out
 
     def walk_pow(self, formula: FNode, args: List[Theory], **kwargs) -> Theory:
-        return args[0].set_linear(False)
+        theory_out = args[0].set_linear(False)
+        # This is  not in DL anymore
+        theory_out = theory_out.set_difference_logic(False)
+        return theory_out
 
     def walk_plus(self, formula: FNode, args: List[Theory], **kwargs) -> Theory:
         theory_out = args[0]
